@@ -3576,7 +3576,9 @@ func (t *Topic) original(uid types.Uid) string {
 		if pud, ok := t.perUser[uid]; ok {
 			return pud.topicName
 		}
-		panic("Invalid P2P topic")
+		// Not a participant, e.g. root acting on behalf of a third user addressed the topic
+		// by its p2pXXX name: there is no user-specific name to present.
+		return t.name
 	}
 
 	if t.cat == types.TopicCatGrp && t.isChan {
